@@ -109,6 +109,8 @@ pub fn is_constant(opcode: spirv::Op) -> bool {
             | spirv::Op::SpecConstant
             | spirv::Op::SpecConstantComposite
             | spirv::Op::SpecConstantOp
+            | spirv::Op::ConstantCompositeReplicateEXT
+            | spirv::Op::SpecConstantCompositeReplicateEXT
             | spirv::Op::ConstantCompositeContinuedINTEL
             | spirv::Op::SpecConstantCompositeContinuedINTEL
     )
